@@ -64,7 +64,6 @@ Definition lower_bytes (s : bytes) : bytes := map lower s.
 
 (** exponent magnitudes beyond this cannot change the result (0 or infinity): clamp so that
     the exact conversion stays cheap.  Mantissa digit count is added to the bound at use. *)
-Definition clampZ (lo hi z : Z) : Z := Z.max lo (Z.min hi z).
 
 (** Rust [f64::from_str]: [+-] ( inf | infinity | nan | digits [. digits] [ (e|E) [+-] digits ] )
     with at least one mantissa digit.  Returns the double. *)
@@ -86,9 +85,7 @@ Definition parse_f64 (s : bytes) : option f64 :=
       end in
     if (ni + nf =? 0)%Z then None
     else
-      let finish (ex : Z) : option f64 :=
-        let nd := (ni + nf)%Z in
-        Some (of_decimal neg mant (clampZ (-400 - nd) (400 + nd) ex - nf)) in
+      let finish (ex : Z) : option f64 := Some (of_decimal_c neg mant (ex - nf)) in
       match r2 with
       | [] => finish 0%Z
       | c :: r3 =>
